@@ -153,21 +153,57 @@ def startsWithText : List FEv → Bool
   | .other (.text _ _) :: _ => true
   | _ => false
 
-/-- element content the text syntax can express, in the normal form in which a
-    tokenizer reports it: non-empty character data never adjacent to other
-    character data, CDATA sections holding at most one piece of text; no `Markup`
-    (pre-escaped) text, no declaration or doctype (prolog) -/
-def bodyOK : List FEv → Bool
-  | [] => true
-  | .start n a :: es => Reader.validName n && flatAttrsOK a && bodyOK es
-  | .empty n a :: es => Reader.validName n && flatAttrsOK a && bodyOK es
-  | .end_ n :: es => Reader.validName n && bodyOK es
-  | .other (.text s safe) :: es => !safe && !s.isEmpty && okStr s && !startsWithText es && bodyOK es
-  | .other (.comment s) :: es => commentOK s && bodyOK es
-  | .other (.pi t d) :: es => piOK t d && bodyOK es
-  | .other .startCdata :: .other (.text s safe) :: .other .endCdata :: es =>
-      !safe && !s.isEmpty && cdataOK s && bodyOK es
-  | .other .startCdata :: .other .endCdata :: es => bodyOK es
-  | _ => false
+def sysidOK (sy : Str) : Bool := !sy.isEmpty && okStr sy && !(List.elem '"' sy && List.elem '\'' sy)
+
+/-- a DOCTYPE event the text syntax can express and a reader reports unchanged -/
+def doctypeOK (n : Str) (p s : Option Str) : Bool :=
+  Reader.validName n && Reader.doctypeNameOk n &&
+  (match p, s with
+   | none, none => true
+   | none, some sy => sysidOK sy
+   | some pu, some sy =>
+       !pu.isEmpty && pu.all Reader.isPubidChar && Reader.normPubid pu = pu && !List.elem '\r' pu && sysidOK sy
+   | some _, none => false)
+
+def declOK (v : Str) (enc : Option Str) (sa : Int) : Bool :=
+  Reader.validVersion v && (match enc with | some e => Reader.validEncName e | none => true) &&
+  (sa = -1 || sa = 0 || sa = 1)
+
+/-- content the text syntax can express, in the normal form in which a tokenizer
+    reports it: non-empty character data never adjacent to other character data,
+    CDATA sections holding at most one piece of text, no `Markup` (pre-escaped)
+    text; `dt`: a DOCTYPE may still come (at most one, not followed by text) -/
+def contentOK : Bool → List FEv → Bool
+  | _, [] => true
+  | dt, .start n a :: es => Reader.validName n && flatAttrsOK a && contentOK dt es
+  | dt, .empty n a :: es => Reader.validName n && flatAttrsOK a && contentOK dt es
+  | dt, .end_ n :: es => Reader.validName n && contentOK dt es
+  | dt, .other (.text s safe) :: es => !safe && !s.isEmpty && okStr s && !startsWithText es && contentOK dt es
+  | dt, .other (.comment s) :: es => commentOK s && contentOK dt es
+  | dt, .other (.pi t d) :: es => piOK t d && contentOK dt es
+  | dt, .other .startCdata :: .other (.text s safe) :: .other .endCdata :: es =>
+      !safe && !s.isEmpty && cdataOK s && contentOK dt es
+  | dt, .other .startCdata :: .other .endCdata :: es => contentOK dt es
+  | true, .other (.doctype n p s) :: es => doctypeOK n p s && !startsWithText es && contentOK false es
+  | _, _ => false
+
+/-- element content (no prolog) -/
+def bodyOK (fs : List FEv) : Bool := contentOK false fs
+
+/-- a whole document: an optional XML declaration first, then content with at most one DOCTYPE -/
+def docTextOK (fs : List FEv) : Bool :=
+  match fs with
+  | .other (.xmlDecl v e sa) :: rest => declOK v e sa && !startsWithText rest && contentOK true rest
+  | _ => contentOK true fs
+
+/-- the line break the serializer writes after the declaration and the DOCTYPE, as a tokenizer sees it -/
+def wsTok : FEv := .other (.text ['\n'] false)
+
+/-- the tokens a tokenizer reports for the serialisation of these events -/
+def tokOf : List FEv → List FEv
+  | [] => []
+  | .other (.doctype n p s) :: es => .other (.doctype n p s) :: wsTok :: tokOf es
+  | .other (.xmlDecl v e sa) :: es => .other (.xmlDecl v e sa) :: wsTok :: tokOf es
+  | e :: es => normF e :: tokOf es
 
 end Genshi.Xml
